@@ -24,6 +24,7 @@ from .c09 import _vin
 
 use_repo()
 from pgradd.RINGParser import Read                     # noqa: E402
+from pgradd.Error import RINGError                     # noqa: E402
 
 EXPLICIT = [
     ("rule CH{ reactant r1{ C labeled c1 H labeled h1 single bond to c1 } increase number of radical (c1) "
@@ -230,8 +231,9 @@ def run(ctx):
                               % (text, 'accepted' if accepted else 'raised ' + type(q).__name__,
                                  'balanced' if balanced else 'unbalanced', 'accepts' if spec_acc else 'rejects',
                                  spec.get('why', '')), {'kind': 'rule', 'text': text})
-            elif not accepted and type(q).__name__ != 'RINGReaderError' and spec.get('why') == 'RINGReaderError':
-                ctx.violation('reject-class:%r' % text, 'Read(%r) raised %s instead of RINGReaderError'
+            elif not accepted and not isinstance(q, RINGError) and spec.get('why') == 'RINGReaderError':
+                # (the statement says "rejected when read"; that the rejection is one of the RING errors is C09's clause)
+                ctx.violation('reject-class:%r' % text, 'Read(%r) raised %s, not a RING error'
                               % (text, type(q).__name__), {'kind': 'rule', 'text': text})
         kind, q, _ = read[ri]
         if kind == 'error' or not spec['ok']:
